@@ -343,7 +343,8 @@ class Group:
         self.first, self.joins = first, list(joins)  # joins: (jtype, rel, cond) cond in on|using|none
 
     def rels(self):
-        out = [self.first]
+        # the first relation may itself be a parenthesised join group: FROM (a JOIN b ON ...) [JOIN c ...]
+        out = self.first.group.rels() if self.first.kind == "nested" else [self.first]
         for j in self.joins:
             out += j[1].group.rels() if j[1].kind == "nested" else [j[1]]
         return out
@@ -417,6 +418,8 @@ class Select:
             if any(g.joins for g in self.groups):
                 t.add("from.mixed_comma_join")
         for g in self.groups:
+            if g.first.kind == "nested":
+                t |= g.first.tags() | {"from.item_wholly_parenthesised" if not g.joins else "from.first_relation_parenthesised_group"}
             for jt, rel, cond in g.joins:
                 t.add("join." + jt.replace(" ", "_"))
                 t.add("join.cond_" + cond)
